@@ -382,6 +382,7 @@ public:
 			memcpy(new_arr + wptr + 1, where, (end() - where) * sizeof(FieldTrait));
 			delete[] _arr;
 			_arr = new_arr;
+			where = _arr + wptr;
 		}
 		++_sz;
 		return std::make_pair(where, true);
